@@ -51,6 +51,21 @@ CHECKS = {
              "stripping variant not yet exercised",
         technique="TLA+ spec + TLC model checking + replay with disconnect/reestablish on real channels + TLC trace validation",
         design_ref="DESIGN.md 4.1, 5/C03"),
+    "C15": dict(
+        category="model_checking",
+        text="spec/InvoiceRegistry transcribes updateLegacy/updateMpp/resolveReplayedHtlc, the UpdateInvoice appliers, AMP "
+             "set handling, hodl subscriptions and the auto-release timer; TLC explores the FULL reachable state space per "
+             "pair of invoice kinds (regular, no-address, hold, zero-amount, AMP, keysend) with 2-3 HTLC circuits and amounts "
+             "around the invoice value, checking SettledIsPaid (address, common total >= value, sum >= total, expiry margin, "
+             "preimage), AmtPaidExact, ForwardOnly, ResolutionsAgree, ReplaySameVerdict; TLC-generated histories and a "
+             "2-link concurrent free driver are executed on the real InvoiceRegistry over the KV store and over SQLite, every "
+             "HtlcResolution (incl. later hodl resolutions) and the LookupInvoice projection after every event are validated "
+             "by TLC against the same spec for both stores.",
+        note="blinded-path invoices, spontaneous AMP, KeysendHoldTime, the HTLC interceptor and the expiry watcher are not "
+             "covered; Postgres unavailable; known finding F15 (keysend replay after a block is failed) is reported as "
+             "KNOWN-FINDING; concurrent blocks are accepted iff some interleaving is a behaviour of the spec",
+        technique="TLA+ spec + TLC full-closure model checking + TLC trace validation on KV and SQLite stores",
+        design_ref="DESIGN.md 4.11, 5/C15"),
     "C16": dict(
         category="model_checking",
         text="spec/PaymentStore (payments, attempts, error classes with the code's precedence, the documented status table) "
